@@ -220,6 +220,9 @@ type Evidence struct {
 // WriteEvidence writes the evidence file (also on exit 1 and 2).
 func WriteEvidence(ev *Evidence) {
 	dir := filepath.Join(VerifDir(), "evidence")
+	if d := os.Getenv("VERIF_EVIDENCE_DIR"); d != "" {
+		dir = d // runs against a seeded change (tools/mutrun.sh) must not overwrite the evidence of the real tree
+	}
 	os.MkdirAll(dir, 0777)
 	data, err := json.MarshalIndent(ev, "", " ")
 	if err != nil {
